@@ -34,12 +34,31 @@ def attr_probe(sc):
         exec(compile(eng.render_source(sc), "<c13>", "exec"), ns)  # noqa: S102
         R.cls = ns["M"]
         declared = {str(e) for e in ns["M"]._events}
+        # attributes that are neither methods nor events: properties (one counts its evaluations, one
+        # raises) and, below, the triggers of another machine bound onto this one with bind_events_to
+        reads = []
+
+        def zz_usage(self):
+            reads.append(1)
+            return len(reads)
+
+        def zz_broken(self):
+            reads.append(1)
+            raise RuntimeError("evaluated by send()")
+        ns["M"] = type(ns["M"])("M", (ns["M"],), {"zz_usage": property(zz_usage), "zz_broken": property(zz_broken)})
+        from statemachine import State, StateMachine
+
+        class Bell(StateMachine):
+            silent = State(initial=True)
+            ringing = State()
+            zz_ring = silent.to(ringing)
+            zz_mute = ringing.to(silent) | silent.to(silent)
         try:
             probe = ns["construct"](ns["Mdl"](), ns["LISTENERS"])
         except Exception:  # noqa: BLE001 - e.g. rtc=False with coroutine callbacks: nothing to probe
             eng.RUN = None
             return {"probe": True, "names": 0, "bad": []}
-        names = [n for n in dir(probe) if n not in declared] + ["zz_unknown", "", "add listener", "Go", "go ", "__nope__"]
+        names = [n for n in dir(probe) if n not in declared] + ["zz_ring", "zz_mute", "zz_unknown", "", "add listener", "Go", "go ", "__nope__"]
         for name in names:
             model = ns["Mdl"]()
             sm = ns["construct"](model, ns["LISTENERS"])
@@ -48,7 +67,11 @@ def attr_probe(sc):
                     sm.activate_initial_state()
                 except Exception:  # noqa: BLE001
                     continue
-            before = (model.state, len(sm._listeners), sm.allow_event_without_transition, type(sm.model).__name__)
+            bell = Bell()
+            bell.bind_events_to(sm)
+            del reads[:]
+            before = (model.state, len(sm._listeners), sm.allow_event_without_transition, type(sm.model).__name__,
+                      bell.current_state.id, 0)
             R.log = []
             try:
                 r = sm.send(name)
@@ -59,7 +82,8 @@ def attr_probe(sc):
                 what = "TransitionNotAllowed"
             except Exception as e:  # noqa: BLE001
                 ok, what = False, f"{type(e).__name__}: {e}"
-            after = (model.state, len(sm._listeners), sm.allow_event_without_transition, type(sm.model).__name__)
+            after = (model.state, len(sm._listeners), sm.allow_event_without_transition, type(sm.model).__name__,
+                     bell.current_state.id, len(reads))
             if not ok or before != after or R.log:
                 bad.append([name, what, before != after, len(R.log)])
     eng.RUN = None
